@@ -22,7 +22,7 @@ ASSUMPTIONS = [
 ]
 REQUIRED = {t: ['ind:sobolev_space', 'ind:sobolev_time', 'ind:weighted_l2', 'patch:same-piece', 'patch:corner', 'patch:seam', 'patch:circle',
                 'patch:circle-seam', 'patch:self', 'residual:polynomial', 'residual:trigonometric', 'order:1', 'order:19', 'rel:shortcut',
-                'rel:pool', 'rel:symmetry', 'rel:neighbour-set', 'curve:UnitSquare', 'curve:PiSquare', 'curve:LShape', 'curve:Circle']
+                'rel:pool', 'rel:symmetry', 'rel:neighbour-set', 'rel:list-order', 'curve:UnitSquare', 'curve:PiSquare', 'curve:LShape', 'curve:Circle']
             for t in ('quick', 'thorough')}
 TIMEOUT = {'quick': 1500, 'thorough': 7200}
 CURVES = ['UnitSquare', 'PiSquare', 'LShape', 'Circle']
@@ -366,6 +366,21 @@ def run_rel(spec, acc):
         if not (rel <= 1e-12):
             k = int(np.argmax(np.abs(serial - direct) / np.maximum(np.abs(direct), 1e-300)) // 2)
             acc.violation('sobolev-shortcut-differs', '%s: estimate_sobolev differs from the per-element sums by %.2e (element %r)' % (curve, rel, ekey(elems[k])), wit0)
+        # the element list may come in any order (reversed, sorted by position, shuffled): same numbers per element
+        direct_of = {id(e): direct[k] for k, e in enumerate(elems)}
+        for oname, order in (('reversed', list(reversed(elems))),
+                             ('by-position', sorted(elems, key=lambda e: (e.space_interval, e.time_interval))),
+                             ('shuffled', rng.sample(elems, len(elems)))):
+            got = EE.estimate_sobolev(order, rtrig, use_mp=False)
+            want = np.array([direct_of[id(e)] for e in order])
+            rel = float(np.max(np.abs(got - want) / np.maximum(np.abs(want), 1e-300)))
+            acc.case('%s|order|%s' % (curve, oname), None)
+            acc.seen('rel:list-order')
+            acc.worst_of('shortcut vs direct sums (reordered list)', rel)
+            if not (rel <= 1e-12):
+                k = int(np.argmax(np.abs(got - want) / np.maximum(np.abs(want), 1e-300)) // 2)
+                acc.violation('sobolev-shortcut-depends-on-list-order', '%s: with the element list %s estimate_sobolev differs from the per-element sums by %.2e (element %r)'
+                              % (curve, oname, rel, ekey(order[k])), dict(wit0, order=oname))
         wl_serial = EE.estimate_weighted_l2(elems, rtrig, use_mp=False)
         wl_direct = np.array([EE.weighted_l2(e, rtrig) for e in elems])
         if wl_serial.tobytes() != wl_direct.tobytes():
